@@ -769,7 +769,8 @@ def run_property(ctx, pid, oracles=None, extra_cov=None):
                 ctx.fail("correspondence",
                          f"model coq/model/GFI.v and implementation disagree at step {si} ({st['kind']}) of case seed={cases[gi]['seed']}: "
                          f"program {json.dumps(cases[gi]['prog'])[:300]} implementation gives {json.dumps(st['res'], default=str)[:300]}",
-                         case=None)
+                         case={"seed": cases[gi]["seed"], "depth": (2 if (cases[gi]["flavour"] != "basic" or (cases[gi]['seed'] % 100000) % 3) else 3),
+                               "flavour": cases[gi]["flavour"], "oracle": "model", "step": si})
     # direct oracles
     nor, nsig = 0, {}
     for name in (oracles or [pid]):
@@ -826,6 +827,20 @@ def replay(case):
     c = gfi_run.make_case(case["seed"], depth=case.get("depth", 2), flavour=case.get("flavour", "basic"))
     gfi_run.worker_init()
     o = gfi_run.run_case(c)
+    if case["oracle"] == "model":
+        # the disagreement between the Coq model and the implementation on this case, re-evaluated
+        if "skip" in o:
+            print("case skipped:", o["skip"]); return True
+        pairs, errors = coq_pairs("replay", [gfi_run.c_case(c, o)])
+        ship = [j for (j, _, _, _) in gfi_run.shipped_steps(o)]
+        for e in errors:
+            print("case file did not evaluate:", e[:400])
+        for (_, si) in pairs:
+            st = o["steps"][ship[si]]
+            print(f"model coq/model/GFI.v and implementation disagree at step {ship[si]} ({st['kind']}): implementation gives "
+                  f"{json.dumps(st['res'], default=str)[:600]}")
+        print(f"program: {json.dumps(c['prog'])[:600]}")
+        return not pairs and not errors
     o = json.loads(json.dumps(o, default=str))
     c = json.loads(json.dumps(c, default=str))
     fn = ORACLES[case["oracle"]]
